@@ -117,11 +117,32 @@ def vars_in(sels, frags, seen=None):
     return out
 
 
+def decl_of(defaults, v):
+    """declared default of variable v: None = required `Boolean!`, else the bool default"""
+    if isinstance(defaults, dict):
+        return defaults.get(v)
+    return True if defaults else None
+
+
+def decl_suffix(defaults, v):
+    d = decl_of(defaults, v)
+    return "!" if d is None else (" = true" if d else " = false")
+
+
+def wire_doc(doc, defaults=False):
+    """the document as sent to the Lean driver: + variable definitions per operation"""
+    out = strip(doc)
+    for o in out["ops"]:
+        o["vd"] = [{"n": v, "nn": decl_of(defaults, v) is None, "d": decl_of(defaults, v)}
+                   for v in sorted(vars_in(o["sels"], doc["frags"]))]
+    return out
+
+
 def p_doc(doc, defaults=False):
     parts = []
     for op in doc["ops"]:
         vs = sorted(vars_in(op["sels"], doc["frags"]))
-        decl = "(" + ", ".join("$%s: Boolean%s" % (v, " = true" if defaults else "!") for v in vs) + ")" if vs else ""
+        decl = "(" + ", ".join("$%s: Boolean%s" % (v, decl_suffix(defaults, v)) for v in vs) + ")" if vs else ""
         head = "query %s%s " % (op["name"], decl) if op["name"] else ("query %s " % decl if decl else "")
         parts.append(head + p_sels(op["sels"]))
     for f in doc["frags"]:
@@ -163,7 +184,13 @@ def conv_doc(document):
     ops, frags = [], []
     for d in document.definitions:
         if isinstance(d, A.OperationDefinition):
-            ops.append({"name": d.name.value if d.name else None, "sels": sels(d.selection_set)})
+            vd = []
+            for v in d.variable_definitions:
+                dv = v.default_value
+                vd.append({"n": v.variable.name.value, "nn": isinstance(v.type, A.NonNullType),
+                           "d": bool(dv.value) if isinstance(dv, A.BooleanValue) else None})
+            ops.append({"name": d.name.value if d.name else None, "sels": sels(d.selection_set),
+                        "vd": sorted(vd, key=lambda x: x["n"])})
         elif isinstance(d, A.FragmentDefinition):
             frags.append({"name": d.name.value, "sels": sels(d.selection_set)})
     return {"ops": ops, "frags": frags}
@@ -226,7 +253,7 @@ def paths_failure(real, case, document):
        direct Field child of every operation, maxdepth in {None,0,1,2,3}, a few fnmatch patterns"""
     import fnmatch
     import re
-    doc, vs, rvs = case.doc, case.vs, case.real_vs
+    doc, vs, rvs = case.doc, case.vs, case.vs       # selected_fields is given coerced variables by its callers
     ops = [d for d in document.definitions if isinstance(d, real.A.OperationDefinition)]
     for i, (op, rop) in enumerate(zip(doc["ops"], ops)):
         fields = [s for s in op["sels"] if s["k"] == "f"]
@@ -614,7 +641,7 @@ def oracle_failures(real, case, limits=LIMITS, want_valid=True):
                     else:
                         fails.append(("error-order", 0, {"limit": limit, "filter": filt, "flagged": got, "expected": exp}))
                 return fails[:1]
-    if not fails and case.real_vs == case.vs:
+    if not fails:
         pf = paths_failure(real, case, document)
         if pf:
             return [pf]
@@ -732,19 +759,19 @@ def report(ctx, real, case, fails):
     ctx.fail(sig, "%s (%s)" % (what, feat), small.detail(operation=i2, spec_depth=ref_depth(small.doc, i2, small.vs), **info2))
 
 
-def correspond(ctx, real, cases, fixed, sf_fixed=True):
+def correspond(ctx, real, cases, fixed, sf_fixed=True, vars_fixed=True):
     """model vs real code (+ Lean spec vs Python reference spec, acyclic vs validator)"""
     if not ctx.model_ok or not cases:
         return
     reqs = []
     for c in cases:
-        reqs.append({"op": "check", "doc": strip(c.doc), "vars": c.real_vs,
+        reqs.append({"op": "check", "doc": wire_doc(c.doc, c.defaults), "vars": c.real_vs,
                      "grid": [[f, l] for f, l in grid_of(c.doc)], "maxdepths": MAXDEPTHS})
     answers = ctx.driver.ask(reqs)
     for c, a in zip(cases, answers):
         document = getattr(c, "document", None) or real.parse(p_doc(c.doc, c.defaults))
         conv = conv_doc(document)
-        if conv != strip(c.doc):
+        if conv != wire_doc(c.doc, c.defaults):
             ctx.fail("corr:ast-conversion", "converted parsed AST differs from the generated tree", c.detail(), kind="correspondence")
             continue
         if a.get("acyclic") is not True:
@@ -753,7 +780,7 @@ def correspond(ctx, real, cases, fixed, sf_fixed=True):
         if a.get("spec") != spec and c.real_vs == c.vs:
             ctx.fail("corr:spec-depth", "Lean spec depth differs from the Python reference depth",
                      c.detail(lean=a.get("spec"), reference=spec), kind="correspondence")
-        key = "rule" if fixed else "orig"
+        key = ("rulev" if vars_fixed else "rule") if fixed else "orig"
         have = getattr(c, "grid", {})
         for (f, l), m in zip(grid_of(c.doc), a[key]):
             got = have[(f, l)] if (f, l) in have else real.flags(document, c.real_vs, l, f)
@@ -782,6 +809,11 @@ def is_sf_fixed_tree():
     return "_selected_paths" in (REPO / "src/py_gql/utilities/collect_fields.py").read_text()
 
 
+def is_vars_fixed_tree():
+    from common import REPO
+    return "coerce_variable_values" in (REPO / "src/py_gql/utilities/max_depth.py").read_text()
+
+
 def is_fixed_tree():
     from common import REPO
     return "_nesting_levels" in (REPO / "src/py_gql/utilities/max_depth.py").read_text()
@@ -808,6 +840,8 @@ def run(ctx):
     real = Real()
     fixed = is_fixed_tree()
     sf_fixed = is_sf_fixed_tree()
+    vars_fixed = is_vars_fixed_tree()
+    ctx.extra["variables_under_test"] = "coerced per operation (C19-Q1vars.patch applied)" if vars_fixed else "raw request variables"
     ctx.extra["selected_fields_under_test"] = "fixed (C19-Q1sf.patch applied)" if sf_fixed else "unchanged (descends into fields[0] only)"
     ctx.extra["tree_under_test"] = "fixed (proposed_fixes/C19-Q1.patch applied)" if fixed else "unchanged (Q1 present)"
     counter = [0]
@@ -833,7 +867,7 @@ def run(ctx):
             flush()
 
     def flush():
-        correspond(ctx, real, pending, fixed, sf_fixed)
+        correspond(ctx, real, pending, fixed, sf_fixed, vars_fixed)
         del pending[:]
 
     # --- corpus (hand-written edge cases; texts over the same schema) -------------------
@@ -876,7 +910,7 @@ def run(ctx):
     flush()
 
     # --- sampled larger documents ---------------------------------------------------------
-    n = ctx.n(500, 3000)
+    n = ctx.n(420, 2600)
     for j in range(n):
         if ctx.time_left() < 8:
             ctx.notes.append("sampled stream stopped early at %d/%d" % (j, n))
@@ -890,8 +924,26 @@ def run(ctx):
         if len(assigns) > 4:
             assigns = ctx.rng.sample(assigns, 4)
         for vs in assigns:
-            check(Case(doc, vs, base=base))
+            if used and ctx.rng.random() < 0.5:
+                # some variables declared with a default; some of those omitted from the request
+                decl = {v: (None if ctx.rng.random() < 0.4 else ctx.rng.random() < 0.5) for v in used}
+                rvs = dict(vs)
+                svs = dict(vs)
+                for v, dflt in decl.items():
+                    if dflt is not None and ctx.rng.random() < 0.6:
+                        del rvs[v]
+                        svs[v] = dflt            # what execution (and the specification) sees
+                ctx.stat("declared-defaults")
+                if len(rvs) < len(vs):
+                    ctx.stat("defaulted-variable-omitted")
+                cdef = Case(doc, svs, base=base, defaults=decl, real_vs=rvs)
+                cdef.validate = ctx.rng.random() < 0.25     # same document, other declarations: full validation of a quarter
+                check(cdef)
+            else:
+                check(Case(doc, vs, base=base))
         ctx.stat("sampled")
+        if j < 60 and used:
+            entry_point_probe(ctx, real, doc, assigns[0])
         ctx.stat("sampled-with-wrapper-directives" if base is None else "sampled-with-base(wrap oracle)")
         if j < 3:
             ctx.sample({"text": p_doc(doc), "variables": assigns[0], "spec_depths": [ref_depth(doc, i, assigns[0]) for i in range(len(doc["ops"]))]})
@@ -907,7 +959,35 @@ def run(ctx):
         if fails:
             report(ctx, real, case, fails)
         if ctx.model_ok:
-            correspond(ctx, real, [case], fixed, sf_fixed)
+            correspond(ctx, real, [case], fixed, sf_fixed, vars_fixed)
+
+
+def entry_point_probe(ctx, real, doc, vs):
+    """the rule as users install it: graphql_blocking(..., validators=[MaxDepthValidationRule(n)]) with request variables"""
+    from py_gql import graphql_blocking
+    from py_gql.exc import ValidationError
+    text = p_doc(doc)
+    name = doc["ops"][0]["name"]
+    d0 = ref_depth(doc, 0, vs)
+    for limit in sorted({max(d0 - 1, 0), d0}):
+        ctx.count()
+        ctx.stat("entry-point-probe")
+        try:
+            res = graphql_blocking(real.schema, text, variables=vs, operation_name=name, root={},
+                                   validators=[real.Rule(limit, operation_name=name)])
+            got = any(isinstance(e, ValidationError) for e in (res.errors or []))
+            outcome = None
+        except Exception as e:  # noqa
+            got, outcome = None, "exc:" + type(e).__name__
+        want = d0 > limit
+        if outcome or got != want:
+            kind = ("raises:%s" % outcome[4:]) if outcome else ("not-flagged" if want else "over-flagged")
+            ctx.fail("%s:entry-point-variables" % kind,
+                     "through graphql_blocking(validators=[MaxDepthValidationRule]) a document with a variable-steered directive "
+                     + ("raises" if outcome else "is checked with the wrong variables"),
+                     {"text": text, "variables": vs, "limit": limit, "operation_name": name, "spec_depth": d0,
+                      "entry_point": True, "outcome": outcome or got})
+            return
 
 
 def doc_with_types(doc):
@@ -917,16 +997,25 @@ def doc_with_types(doc):
 def replay(ctx, data):
     inp = data.get("input", {})
     real = Real()
+    if inp.get("entry_point"):
+        from py_gql import graphql_blocking
+        from py_gql.exc import ValidationError
+        try:
+            res = graphql_blocking(real.schema, inp["text"], variables=inp["variables"], operation_name=inp["operation_name"],
+                                   root={}, validators=[real.Rule(inp["limit"], operation_name=inp["operation_name"])])
+        except Exception:  # noqa
+            return False
+        return any(isinstance(e, ValidationError) for e in (res.errors or [])) == (inp["spec_depth"] > inp["limit"])
     document = real.parse(inp["text"])
     doc = conv_doc(document)
-    case = Case(doc, inp.get("variables", {}))
+    case = Case(doc, inp.get("spec_variables", inp.get("variables", {})), real_vs=inp.get("variables", {}))
     # the text is authoritative (it already carries the variable declarations): evaluate the oracle on it directly
     vs = case.vs
     ok = True
     for filt in filters_of(doc):
         for limit in LIMITS:
             for via in (False, True):
-                if real.flags(document, vs, limit, filt, via_validate=via) != expected_flags(doc, vs, limit, filt):
+                if real.flags(document, case.real_vs, limit, filt, via_validate=via) != expected_flags(doc, vs, limit, filt):
                     ok = False
     if ok and paths_failure(real, case, document):
         ok = False
